@@ -5,7 +5,8 @@
 # tree whose paths point at that worktree — so that /repo and /verif stay free for editing
 # while the matrix runs. Each <patch-dir> holds patch.diff. Results: one "caught by:" line per
 # change in <out-log>. The mirror lives under /tmp/mx and is removed at the end.
-# Env: MX_IDS="C01 C02 ..." restricts the checks; MX_KEEP=1 keeps the mirror.
+# Env: MX_IDS="C01 C02 ..." restricts the checks; MX_OWN=1 runs only the change's own property check;
+# MX_KEEP=1 keeps the mirror.
 set -u
 V="$(cd "$(dirname "$0")/.." && pwd)"
 log="$(readlink -f "$1")"; shift
@@ -20,7 +21,10 @@ sed -i "s#/repo#$MX/repo#g" "$MX/verif/check" "$MX/verif/tools/try_patch.sh" "$M
 ( cd "$MX/verif" && ./check build ) >> "$log" 2>&1 || { echo "mirror build failed" >> "$log"; exit 2; }
 for d in "$@"; do
   d="$(readlink -f "$d")"
-  ( cd "$MX/verif" && tools/try_patch.sh "$d/patch.diff" ${MX_IDS:-} ) >> "$log" 2>&1
+  ids="${MX_IDS:-}"
+  # MX_OWN=1: only the check of the property the change was written against (directory name prefix)
+  if [ -n "${MX_OWN:-}" ]; then ids="$(basename "$d" | cut -d- -f1)"; fi
+  ( cd "$MX/verif" && tools/try_patch.sh "$d/patch.diff" $ids ) >> "$log" 2>&1
 done
 echo "MATRIX-DONE" >> "$log"
 if [ -z "${MX_KEEP:-}" ]; then
